@@ -43,7 +43,7 @@ type Case struct {
 // known findings live (see known_findings.json, "excluded by construction"); the search stays
 // out of them so that it can go on behind those findings (VERIF_C01_FEATURES forces a set, for triage).
 var coreFeatures = []string{"untyped", "schema-defaults", "examples", "x-nullable", "readonly", "minmaxprops", "schema-formats", "depth3", "file", "missing-opids", "tags", "meta", "security", "op-consumes", "polymorphism", "go-extensions"}
-var frontierFeatures = []string{"body-array-of-free-form", "formatted-primitive-definition", "addl-props-ref-to-map", "cli-unrestricted", "ulid-format", "x-nullable-on-containers", "alias-of-escaped-name", "tuples", "x-go-name-on-object", "recursive-container", "flag-strategy-flag", "allof", "param-formats", "param-x-go-name", "poly-array-response", "expand-recursive", "expand-polymorphism", "alias-of-map", "nested-map-enum", "prop-named-as-definition", "hard-names-unfiltered"}
+var frontierFeatures = []string{"alias-definitions", "body-array-of-free-form", "formatted-primitive-definition", "addl-props-ref-to-map", "cli-unrestricted", "ulid-format", "x-nullable-on-containers", "alias-of-escaped-name", "tuples", "x-go-name-on-object", "recursive-container", "flag-strategy-flag", "allof", "param-formats", "param-x-go-name", "poly-array-response", "expand-recursive", "expand-polymorphism", "alias-of-map", "nested-map-enum", "prop-named-as-definition", "hard-names-unfiltered"}
 var featureList = append(append([]string{}, coreFeatures...), frontierFeatures...)
 
 func hasLetter(s string) bool {
@@ -81,7 +81,7 @@ type namer struct {
 var clientParamMethods = setOf("o", "string", "context", "httpclient", "writetorequest", "bindrequest", "httprequest", "withtimeout", "settimeout", "withcontext", "setcontext", "withhttpclient", "sethttpclient", "withdefaults", "setdefaults")
 var modelMethods = setOf("validate", "contextvalidate", "marshalbinary", "unmarshalbinary", "marshaljson", "unmarshaljson")
 var templateImports = setOf("err", "res", "ok", "raw", "rr", "route", "fds", "qs", "qr", "qv", "hdr", "tpe", "file", "header", "http", "params", "runtime", "swag", "errors", "strfmt", "middleware", "security", "spec", "loads", "validate", "context", "io", "json", "fmt", "strings", "os", "url", "net", "flags", "server", "tls", "log", "time", "sync", "atomic", "signal", "strconv", "golangswaggerpaths", "yamlpc", "interpose", "cr", "cobra", "viper", "client", "models", "httptransport", "operations", "restapi", "path", "homedir", "bytes", "reader", "bufio", "multipart", "mime")
-var badTags = setOf("models", "bool", "error", "string", "nil", "len", "new", "true", "false", "append", "make", "init", "main", "o", "restapi", "cli", "io", "os", "strconv", "context")
+var badTags = setOf("api", "models", "bool", "error", "string", "nil", "len", "new", "true", "false", "append", "make", "init", "main", "o", "restapi", "cli", "io", "os", "strconv", "context")
 var cliImports = setOf("json", "fmt", "swag", "cobra", "viper", "strfmt", "errors", "runtime", "client", "models", "httptransport", "os", "log", "path", "homedir")
 var rePlainIdent = regexp.MustCompile(`^[A-Za-z_][A-Za-z0-9_.\-]*$`)
 
@@ -153,7 +153,7 @@ func knownBad(kind, s string) string {
 		if c := nameClass(s); c != "word" && c != "separators" && c != "single-letter" || !isASCII(s) {
 			return "polymorphic-property-name"
 		}
-		if goKeywords[strings.ToLower(s)] || predeclared[strings.ToLower(s)] || modelMethods[k] || (nameClass(s) != "separators" && !isSimpleWord(strings.ToLower(s))) {
+		if goKeywords[strings.ToLower(s)] || predeclared[strings.ToLower(s)] || modelMethods[k] || strings.HasPrefix(k, "set") || (nameClass(s) != "separators" && !isSimpleWord(strings.ToLower(s))) {
 			return "polymorphic-property-name"
 		}
 	case "property", "discriminator":
@@ -288,7 +288,7 @@ func gen(t *rapid.T) Case {
 	for i, f := range featureList {
 		on := i < len(coreFeatures) && specgen.Uniform(t, fmt.Sprintf("feat%d", i), 100) < 50
 		if forced := os.Getenv("VERIF_C01_FEATURES"); forced != "" {
-			on = strings.Contains(","+forced+",", ","+f+",") || (forced == "all" && i < len(coreFeatures)) || forced == "frontier"
+			on = strings.Contains(","+forced+",", ","+f+",") || (strings.Contains(","+forced+",", ",all,") && i < len(coreFeatures)) || forced == "frontier"
 		}
 		if on {
 			feats[f] = true
@@ -506,6 +506,17 @@ func addPolymorphic(t *rapid.T, doc J, nm *namer, arrayResponse bool) {
 // matching frontier feature is on).
 func sanitize(doc J, feats map[string]bool, flatten string) {
 	defs, _ := doc["definitions"].(J)
+	if !feats["alias-definitions"] {
+		// definitions that are a bare $ref to another definition (type aliases) take part in several listed findings
+		// (alias of a free-form map, of a name that needs escaping, of a non-struct used in inline schemas): none in Core
+		for _, n := range work.SortedKeys(defs) {
+			if d, ok := defs[n].(J); ok {
+				if _, isRef := d["$ref"].(string); isRef {
+					defs[n] = J{"type": "string"}
+				}
+			}
+		}
+	}
 	if !feats["alias-of-map"] {
 		// a definition that is a bare $ref to a free-form map definition: rendered as a type alias whose holder calls a Validate method that does not exist
 		for _, n := range work.SortedKeys(defs) {
